@@ -1,10 +1,59 @@
-(** Property C01 -- placeholder statement set; the component theorems land in later commits. *)
-Require Import Zrs.lib.RsPrelude Zrs.model.BlockDec.
-Theorem C01_split_at_spec : forall n l a b, split_at n l = Some (a, b) -> l = a ++ b /\ length a = n.
-Proof.
-  induction n as [|n IH]; intros l a b H; cbn in H.
-  - inversion H. subst. split; reflexivity.
-  - destruct l as [|x t]; [discriminate|]. destruct (split_at n t) as [[a' b']|] eqn:E; [|discriminate].
-    inversion H. subst. destruct (IH t a' b E) as [-> L]. split; [reflexivity|cbn; lia].
-Qed.
-Print Assumptions C01_split_at_spec.
+(** Property C01 -- the decoder reproduces the original data for every valid frame.
+    The end-to-end statement "decode (frame) = the data a conforming compressor started from" needs a formal
+    specification of the whole format (FSE and Huffman bit streams included) and is NOT proved; this property is
+    claimed at level translation_validation: the executable decoder model below is run against the implementation
+    and against the original data on every run.  What IS proved, for all inputs, about that model:
+    - sequence execution (with or without a dictionary) is the reference LZ77 semantics of RFC 8878 3.1.1.4/5 --
+      literal run, repeat-offset rules, byte-wise copy from [off] back -- and every sequence read from a bit stream
+      meets the hypothesis of that theorem;
+    - the chunked copy of the implementation equals the byte-wise copy; every copied byte equals the byte [off] back;
+    - the repeat-offset rules are the RFC's table (C14);
+    - raw and RLE blocks regenerate their content; block headers are read as the RFC lays them out (C14);
+    - the window buffer underneath is a byte queue for every operation sequence (C04). *)
+Require Import Zrs.lib.RsPrelude Zrs.gen.Generated Zrs.model.BitIO Zrs.model.FseDec Zrs.model.HufDec Zrs.model.BlockDec.
+Require Import Zrs.proofs.C06_Drain Zrs.proofs.C05_Block Zrs.proofs.C09_Lz Zrs.proofs.C01_Exec Zrs.proofs.C14_Headers
+  Zrs.proofs.C17_Matcher Zrs.proofs.C02_Roundtrip.
+Open Scope Z_scope.
+
+Theorem C01_sequence_execution_is_the_reference : forall seqs lits buf hist buf' hist',
+  db_wf buf -> hist_ok hist -> Forall seq_pos seqs ->
+  execute_sequences seqs lits buf hist = ROk (buf', hist') ->
+  exists out rest, ref_exec seqs lits (db_rev buf ++ rev (db_dict buf)) hist = Some (out, hist', rest) /\
+                   db_rev buf' ++ rev (db_dict buf) = rev_append rest out.
+Proof. exact execute_sequences_is_reference. Qed.
+
+Theorem C01_decoded_sequences_meet_the_hypothesis : forall n modes src s s' seqs,
+  decode_sequences n modes src s = ROk (s', seqs) -> Forall seq_pos seqs.
+Proof. exact decode_sequences_pos. Qed.
+
+Theorem C01_chunked_copy_is_bytewise : forall n off r, (1 <= off)%nat -> (off <= length r)%nat ->
+  lz_copy_fast n off r = lz_copy n off r.
+Proof. exact lz_copy_fast_eq. Qed.
+
+Theorem C01_copied_bytes_equal_bytes_at_distance : forall n off r i, (1 <= off)%nat -> (i < n)%nat ->
+  nth i (lz_copy n off r) 0 = nth (i + off) (lz_copy n off r) 0.
+Proof. exact lz_copy_pointwise. Qed.
+
+Theorem C01_repeat_offset_rules_are_the_rfc_table : forall ov ll h1 h2 h3, 1 <= ov -> 0 <= ll -> 1 <= h1 ->
+  do_offset_history ov ll [h1; h2; h3] = spec_offset_history ov ll h1 h2 h3.
+Proof. exact offset_history_spec. Qed.
+
+Theorem C01_raw_block_regenerates_its_bytes : forall sc d rest,
+  decode_block_content 0 (Z.of_nat (length d)) (Z.of_nat (length d)) sc (d ++ rest) = ROk (sc_push_raw sc d, Z.of_nat (length d), rest).
+Proof. exact raw_content. Qed.
+
+Theorem C01_rle_block_regenerates_a_run : forall sc (b : Z) n rest,
+  decode_block_content 1 (Z.of_nat n) 1 sc ([b] ++ rest) = ROk (sc_push_raw sc (repeat_z b n), 1, rest).
+Proof. exact rle_content. Qed.
+
+Example C01_reference_non_vacuous :
+  ref_exec [{| sq_ll := 2; sq_ml := 4; sq_of := 5 |}] [7; 8; 9] [] [1; 4; 8] = Some ([8; 7; 8; 7; 8; 7], [2; 1; 4], [9]).
+Proof. vm_compute. reflexivity. Qed.
+
+Print Assumptions C01_sequence_execution_is_the_reference.
+Print Assumptions C01_decoded_sequences_meet_the_hypothesis.
+Print Assumptions C01_chunked_copy_is_bytewise.
+Print Assumptions C01_copied_bytes_equal_bytes_at_distance.
+Print Assumptions C01_repeat_offset_rules_are_the_rfc_table.
+Print Assumptions C01_raw_block_regenerates_its_bytes.
+Print Assumptions C01_rle_block_regenerates_a_run.
